@@ -58,6 +58,9 @@ CHECKS = {
  "C17": ("model_checking", TECH,
          "grpc-web response bodies from an independent encoder (0..2 message frames + trailers frame over a trailer-map menu, truncation at every byte, bad flag at every frame start) delivered through GrpcWebClientService under every chunking (all compositions for bodies <= 21/26 bytes, else <= bound cuts/Pending, plus drip); data and the full trailer multimap must be recovered, malformed bodies must error, no busy loop; a real generated client on top must see the server's status.",
          "Binary grpc-web only (the client layer never requests text); a body cut exactly at a frame boundary is not judged.", "3/C17"),
+ "C18": ("model_checking", "explicit-path model checking of the real health service: exhaustive operation histories against a reference model in lock-step, and exhaustive preemption-bounded schedules under a deterministic scheduler with a brute-force linearizability oracle",
+         "Histories: every operation sequence of depth 5 (thorough 6) over {set, clear, check (incl. a never-set name), watch, non-blocking next, drop} on two services x three statuses with <= 2 watches, through the generated HealthClient wired in-process to health_reporter()'s server, RefHealth stepped in lock-step. Schedules: 2-3 tasks of 1-2 operations each under a deterministic scheduler that switches at every registry lock acquisition (hook H2), every schedule with <= 2 (thorough 3) preemptions; no deadlock and the observed returns, the final state and a final poll of every live watch must be explained by some sequential order (brute-force linearizability).",
+         "Scheduling points are the registry's lock acquisitions (hook); memory-ordering effects inside tokio's RwLock/watch on a multi-core runtime are trusted; the subscription instant of a lazily polled in-process watch lies between the watch call and its first poll.", "3/C18"),
  "C19": ("exploration", EXH,
          "Every 1- and 2-file descriptor set of a bounded grammar (package none/p/p.q; message forests nested to depth 2/3; fields, oneofs, top-level and nested enums, services with 1-2 methods; colliding one-letter names) x every registration mode (decoded, encoded, duplicated, split over sets) x with_service_name x include_reflection_service, plus the real health/google.rpc/reflection sets: the Builder-built v1 and v1alpha services are queried through the generated clients for every declared name, every file, list_services and hundreds of mutated unknown names, judged by an independent FQN computation; v1 and v1alpha must agree.",
          "Names outside the grammar are covered only by the four real descriptor sets; enum values are accepted under either naming rule; package names are not judged; the responder task runs on a deterministic paused current-thread runtime.", "3/C19"),
